@@ -295,8 +295,15 @@ fn set_case(cfg_name: &str, cfg: &mut Cfg, key: &str, text: &str, hist: u64) -> 
 fn sql_quote(s: &str) -> String {
     s.replace('\'', "''")
 }
+/// texts sent through SQL: no backslash / NUL (literal syntax), and no large number -- SHOW is an ordinary query that
+/// runs under the modified session (a batch size or partition count of 2^64-1 makes it allocate without bound);
+/// the numeric boundaries are covered on the API path, SET only forwards the text to ConfigOptions::set
 fn sql_ok_text(s: &str) -> bool {
-    !s.contains('\\') && !s.contains('\0')
+    let digits = s.trim().trim_start_matches('+').trim_start_matches('0');
+    let big = !digits.is_empty()
+        && digits.chars().all(|c| c.is_ascii_digit())
+        && (digits.len() > 4 || digits.parse::<u32>().unwrap_or(u32::MAX) > 300);
+    !s.contains('\\') && !s.contains('\0') && !big
 }
 
 async fn show(ctx: &SessionContext, key: &str) -> Result<Vec<Option<String>>, String> {
